@@ -258,6 +258,13 @@ def match_known(pid, rec, known):
             if not isinstance(det, dict) or det.get(key) != val:
                 ok = False
                 break
+        # where_sub: {detail key: {sub key: value}} - the detail entry must be a dict that
+        # contains these items (used for the fault plan, whose position varies)
+        for key, sub in (m.get("where_sub") or {}).items():
+            cur = det.get(key) if isinstance(det, dict) else None
+            if not isinstance(cur, dict) or any(cur.get(a) != b for a, b in sub.items()):
+                ok = False
+                break
         if ok:
             return k
     return None
